@@ -18,9 +18,14 @@ Definition default_content_type : list N := [97; 112; 112; 108; 105; 99; 97; 116
 (* helpers.EMPTY_BODY_STATUS_CODES *)
 Definition empty_body_status (c : N) : bool := (c =? 204) || (c =? 304) || ((100 <=? c) && (c <? 200)).
 
-(* StreamResponse._prepare_headers, HTTP/1.0 response without length: `keep_alive = False` updates the local that
-   selects the Connection header only; the decision web_protocol reads (self._keep_alive) was stored before *)
-Definition h10_nolength_clears_stored_keepalive : bool := false.
+(* StreamResponse, HTTP/1.0 response with a body and no length: the decision web_protocol reads (self._keep_alive) is
+   cleared by write_eof() at the end of the close-delimited body (self._close_delimited) *)
+Definition h10_nolength_clears_stored_keepalive : bool := true.
+
+(* ClientRequest._update_expect_continue creates the 100-continue waiter under this condition; the server's default
+   expect handler writes `100 Continue` only for an HTTP/1.1 request *)
+Definition continue_waiter_created (expect v11 : bool) : bool := expect && v11.
+Definition server_sends_100 (expect v11 : bool) : bool := expect && v11.
 
 (* feed_data: empty_body = code in EMPTY_BODY_STATUS_CODES or bool(code and method and method in EMPTY_BODY_METHODS) *)
 Definition response_empty_body_rule_is_status_or_head : bool := true.
